@@ -199,7 +199,7 @@ Proof.
   rewrite Hin in H. cbn [negb] in H. rewrite Hroot in H.
   set (got := opt_list (o_submitted o)) in *.
   apply andb_true_iff in H as [HAB HX]. apply andb_true_iff in HAB as [_ Hjob].
-  apply andb_true_iff in HX as [HX Hagg]. apply andb_true_iff in HX as [HX Hcomp].
+  apply andb_true_iff in HX as [HX _]. apply andb_true_iff in HX as [HX Hagg]. apply andb_true_iff in HX as [HX Hcomp].
   apply andb_true_iff in HX as [Hnd Hsound].
   split; [|split; [|split]].
   - intros s' r' v x Hm. rewrite forallb_forall in Hsound. specialize (Hsound _ Hm). cbn in Hsound.
